@@ -173,6 +173,10 @@ func checkC11(c *Ctx) {
 	checkFoldedPatterns(c, "C11.R5.versioned-packages", gen)
 	checkVersionedImports(c, "C11.R5.versioned-imports", gen)
 	checkExternalRecognised(c, "C11.R6.external-recognised", gen)
+	// a run converges to what a fresh generation writes only if it starts from the same state: nothing one
+	// generation learns (a cached copy, a remembered path) is kept in a package-level variable for the next
+	c.Rule("C11.R3.no-run-state", "the generator writes its package-level variables only at initialisation or under the template repository's lock (reviewed exceptions)", 5)
+	checkGlobalStores(c, "C11.R3.no-run-state", []*packages.Package{gen})
 	checkImportsExplicit(c, "C11.R4.imports-explicit", gen)
 }
 
